@@ -90,6 +90,9 @@ def parse_states(text):
         for i, st in enumerate(_parse_states(text)):
             if i % 97 == 50:
                 mutate(st)
+                if os.environ.get("VERIF_SELFTEST_LOG"):
+                    with open(os.environ["VERIF_SELFTEST_LOG"], "a") as fh:
+                        fh.write("expect state %d\n" % i)
             yield st
         return
     yield from _parse_states(text)
